@@ -3,6 +3,10 @@
 #include <mutex>
 #include <string>
 
+#ifdef CAPPUCCINO_VERIF_HOOKS
+#include <atomic>
+#endif
+
 namespace cappuccino
 {
 /**
@@ -22,6 +26,32 @@ enum class thread_safe
 
 auto to_string(thread_safe ts) -> const std::string&;
 
+#ifdef CAPPUCCINO_VERIF_HOOKS
+/**
+ * Verification-only schedule points around the cache lock.  Compiled in only with
+ * -DCAPPUCCINO_VERIF_HOOKS; a test harness may install a callback to inject delays or to
+ * drive a cooperative scheduler.  The slot is read relaxed so it adds no synchronization.
+ */
+namespace verif
+{
+enum class point
+{
+    before_lock,
+    after_lock,
+    after_unlock
+};
+using hook_fn = void (*)(point, const void*);
+inline std::atomic<hook_fn> g_lock_hook{nullptr};
+inline auto fire(point p, const void* m) -> void
+{
+    if (auto f = g_lock_hook.load(std::memory_order_relaxed); f != nullptr)
+    {
+        f(p, m);
+    }
+}
+} // namespace verif
+#endif
+
 /**
  * Creates a lock that based on the thread_safety will behave correctly.
  * thread_safe::yes => Uses a std::mutex
@@ -38,7 +68,13 @@ public:
     {
         if constexpr (thread_safe_type == thread_safe::yes)
         {
+#ifdef CAPPUCCINO_VERIF_HOOKS
+            verif::fire(verif::point::before_lock, this);
+#endif
             m_lock.lock();
+#ifdef CAPPUCCINO_VERIF_HOOKS
+            verif::fire(verif::point::after_lock, this);
+#endif
         }
     }
 
@@ -47,6 +83,9 @@ public:
         if constexpr (thread_safe_type == thread_safe::yes)
         {
             m_lock.unlock();
+#ifdef CAPPUCCINO_VERIF_HOOKS
+            verif::fire(verif::point::after_unlock, this);
+#endif
         }
     }
 
